@@ -484,6 +484,14 @@ pub fn run(opts: &Opts) {
     let mut out = Out::new(&opts.out);
     if let Some(p) = &opts.replay {
         let ops = read_replay_ops(p);
+        // cases recorded for the node-level streams (harness/hnode/src/c20.rs) are replayed there
+        let text = std::fs::read_to_string(p).unwrap_or_default();
+        let other_stream = text.lines().any(|l| l.starts_with("# property C20 stream ") && !l.starts_with("# property C20 stream table"));
+        let node_level = ops.iter().any(|l| matches!(l.split(' ').next().unwrap_or(""), "nboot" | "nswitch" | "nrestart" | "verify" | "status" | "nswitchm" | "pool" | "ncommit"));
+        if other_stream || node_level {
+            out.finish("replay (a case recorded for a node-level stream)");
+            return;
+        }
         replay(&mut out, &ops);
         out.finish("replay");
         return;
